@@ -95,8 +95,12 @@ def cases(rng, tier):
         yield ("build %d %d %s" % (scale, rng.choice([0, 1]), ";".join(calls)), "long")
     # holds and lines of days and weeks ("however long they are"): tens of thousands of 60 s segments, chunk counts
     # around 2^16, durations up to 2^32 - 1 ms; and trajectories whose bytes exceed 64 KiB
-    huge = [3932159999, 3932160000, 3932160001, 3932220000, 4000000000, 4294967295, 65535 * 60000, 65537 * 60000 + 1, 2 ** 31, 2 ** 31 + 60001]
-    for d in (huge if thorough else rng.sample(huge, 3) + [3932160001]):
+    # (the last 60 s below 2^32 ms is where a rounded-up chunk count wraps: always present, with its lower edge)
+    top = 2 ** 32 - 1
+    huge = [3932159999, 3932160000, 3932160001, 3932220000, 4000000000, 65535 * 60000, 65537 * 60000 + 1, 2 ** 31, 2 ** 31 + 60001,
+            top - 59999, top - 59998, top - 60000, top - 1]
+    always = [3932160001, top, rng.randint(top - 59998, top - 1)]
+    for d in (huge + always if thorough else rng.sample(huge, 2) + always):
         scale = rng.choice([1, 2, 10])
         calls = ["S:" + fmt_point(point(rng, scale)), "H:%d" % d, "L:" + fmt_point(point(rng, scale)) + ":1000", "F"]
         yield ("build %d %d %s" % (scale, rng.choice([0, 1]), ";".join(calls)), "huge-hold")
